@@ -241,6 +241,155 @@ fn radau_pade_every_step(rep: &mut Report) {
     rep.absorb(outs);
 }
 
+/// dense helpers of the harness' own (row-major, partial pivoting): nothing shared with ivp's matrix code
+fn mat_mul(a: &[f64], b: &[f64], n: usize) -> Vec<f64> {
+    let mut c = vec![0.0; n * n];
+    for i in 0..n {
+        for j in 0..n {
+            c[i * n + j] = (0..n).map(|k| a[i * n + k] * b[k * n + j]).sum();
+        }
+    }
+    c
+}
+fn mat_vec(a: &[f64], x: &[f64], n: usize) -> Vec<f64> {
+    (0..n).map(|i| (0..n).map(|j| a[i * n + j] * x[j]).sum()).collect()
+}
+fn solve_dense(a: &[f64], b: &[f64], n: usize) -> Option<Vec<f64>> {
+    let mut m = a.to_vec();
+    let mut x = b.to_vec();
+    for k in 0..n {
+        let piv = (k..n).max_by(|&i, &j| m[i * n + k].abs().partial_cmp(&m[j * n + k].abs()).unwrap())?;
+        if m[piv * n + k] == 0.0 {
+            return None;
+        }
+        if piv != k {
+            for j in 0..n {
+                m.swap(k * n + j, piv * n + j);
+            }
+            x.swap(k, piv);
+        }
+        for i in k + 1..n {
+            let f = m[i * n + k] / m[k * n + k];
+            for j in k..n {
+                m[i * n + j] -= f * m[k * n + j];
+            }
+            x[i] -= f * x[k];
+        }
+    }
+    for k in (0..n).rev() {
+        let s: f64 = (k + 1..n).map(|j| m[k * n + j] * x[j]).sum();
+        x[k] = (x[k] - s) / m[k * n + k];
+    }
+    Some(x)
+}
+
+/// (2c) the same on systems whose iteration matrices need row interchanges (real and complex): general
+/// non-normal matrices with dominant off-diagonal entries, n = 2 and 3; every accepted step against
+/// D(hA)^-1 N(hA) y_old computed with the harness' own elimination
+fn radau_pade_general(rep: &mut Report) {
+    let w10 = 10.0f64;
+    let w30 = 30.0f64;
+    // S diag(l) S^-1 with S = [[1,1,0],[0,1,1],[1,0,1]], S^-1 = 1/2 [[1,-1,1],[1,1,-1],[-1,1,1]]
+    let sim3 = |l: [f64; 3]| -> Vec<f64> {
+        let s = [1.0, 1.0, 0.0, 0.0, 1.0, 1.0, 1.0, 0.0, 1.0];
+        let si = [0.5, -0.5, 0.5, 0.5, 0.5, -0.5, -0.5, 0.5, 0.5];
+        let d = [l[0], 0.0, 0.0, 0.0, l[1], 0.0, 0.0, 0.0, l[2]];
+        mat_mul(&mat_mul(&s, &d, 3), &si, 3)
+    };
+    let mats: Vec<(String, usize, Vec<f64>)> = vec![
+        ("damped oscillator, spring 1+10^2".into(), 2, vec![0.0, 1.0, -(1.0 + w10 * w10), -2.0]),
+        ("damped oscillator, spring 1+30^2".into(), 2, vec![0.0, 1.0, -(1.0 + w30 * w30), -2.0]),
+        ("stiff spring, eigenvalues -1, -100".into(), 2, vec![0.0, 1.0, -100.0, -101.0]),
+        ("similarity of diag(-1,-30,-100)".into(), 3, sim3([-1.0, -30.0, -100.0])),
+        ("similarity of diag(-0.5,-8,-20)".into(), 3, sim3([-0.5, -8.0, -20.0])),
+        ("lag chain -1, 40, 90".into(), 3, vec![-1.0, 0.0, 0.0, 40.0, -40.0, 0.0, 0.0, 90.0, -90.0]),
+    ];
+    let rtols = [1e-2, 1e-3, 1e-4, 1e-6, 1e-8];
+    let mut jobs = vec![];
+    for mi in 0..mats.len() {
+        for r in rtols {
+            for sign in [1.0, -1.0] {
+                jobs.push((mi, r, sign));
+            }
+        }
+    }
+    let outs = crate::util::par_map(jobs.len(), |k| {
+        let (mi, rtol, sign) = jobs[k];
+        let (name, n, a0) = mats[mi].clone();
+        // backward runs integrate the reflected problem z' = -A z over [0, -span]
+        let a: Vec<f64> = a0.iter().map(|v| v * sign).collect();
+        let span = 1.5 * sign;
+        let af = a.clone();
+        let aj = a.clone();
+        let p = Prob {
+            name: format!("y'=Ay, {}{}", name, if sign < 0.0 { " (reflected)" } else { "" }),
+            n,
+            f: Arc::new(move |_t, y, d| {
+                for i in 0..n {
+                    d[i] = (0..n).map(|j| af[i * n + j] * y[j]).sum();
+                }
+            }),
+            jac: Some(Arc::new(move |_t, _y| aj.clone())),
+            flow: None,
+            y0: (0..n).map(|i| 1.0 - 0.35 * i as f64).collect(),
+            linear_homogeneous: true,
+        };
+        let mut c = Cfg::new(Method::RADAU, 0.0, span, &p.y0);
+        c.user_jac = true;
+        c.rtol = Tol::S(rtol);
+        c.atol = Tol::S(rtol * 1e-3);
+        let r = run_lowlevel(&p, &c, &[], &[], None, false);
+        let key = format!("padegen:{}:{:e}:{}", mi, rtol, sign);
+        let mut out = CaseOut::default();
+        out.events = r.st.n_ode;
+        if r.ok().map(|i| i.status != Status::Success).unwrap_or(true) || r.recs.len() < 3 {
+            out.violations.push(Violation::new(&key, "outcome", format!("Radau on {} ended with {}", p.name, r.outcome_name()), json!({"key": key})).with("method", "RADAU"));
+            return out;
+        }
+        let mut worst: (f64, usize, f64) = (0.0, 0, 0.0);
+        let mut id = vec![0.0; n * n];
+        for i in 0..n {
+            id[i * n + i] = 1.0;
+        }
+        for k in 0..r.recs.len() - 1 {
+            let (ya, yb) = (&r.recs[k], &r.recs[k + 1]);
+            let h = yb.x - ya.x;
+            let z: Vec<f64> = a.iter().map(|v| v * h).collect();
+            let z2 = mat_mul(&z, &z, n);
+            let z3 = mat_mul(&z2, &z, n);
+            let nm: Vec<f64> = (0..n * n).map(|i| id[i] + 0.4 * z[i] + z2[i] / 20.0).collect();
+            let dm: Vec<f64> = (0..n * n).map(|i| id[i] - 0.6 * z[i] + 0.15 * z2[i] - z3[i] / 60.0).collect();
+            let rhs = mat_vec(&nm, &ya.y, n);
+            let want = match solve_dense(&dm, &rhs, n) {
+                Some(w) => w,
+                None => continue,
+            };
+            let dn = dm.iter().fold(0.0f64, |m, v| m.max(v.abs()));
+            let ny = ya.y.iter().fold(0.0f64, |m, v| m.max(v.abs()));
+            let e = yb.y.iter().zip(&want).fold(0.0f64, |m, (u, v)| m.max((u - v).abs())) / (ny * dn.max(1.0));
+            if e > worst.0 {
+                worst = (e, k, h);
+            }
+            out.validated += 1;
+        }
+        if std::env::var("VERIF_DEBUG").is_ok() {
+            println!("DBG padegen {} rtol={:e} sign={} steps={} worst={:e} at step {} h={:e}", name, rtol, sign, r.recs.len() - 1, worst.0, worst.1, worst.2);
+        }
+        if worst.0 > 1e-10 {
+            out.violations.push(
+                Violation::new(&key, "radau-pade-general", format!("step {} (h={:e}) of Radau on {} at rtol={:e}: y_new deviates from D(hA)^-1 N(hA) y_old by {:e} (relative to |y_old| |D|)", worst.1, worst.2, p.name, rtol, worst.0), json!({"key": key, "steps": r.recs.len() - 1}))
+                    .with("method", "RADAU"),
+            );
+        }
+        out.tag("radau-pade-general");
+        let mut h = r.st.fp;
+        h.s(&key);
+        out.fp = Some(h.as_u128());
+        out
+    });
+    rep.absorb(outs);
+}
+
 /// (3) the real estimator evaluated on every tree: answering stage i with Phi_i(t)
 fn estimator_on_trees(rep: &mut Report, f: &Forest, ex: &Extracted) {
     let (_, _, low) = orders(ex.method);
@@ -520,6 +669,7 @@ pub fn run_check(replay: Option<Value>) -> i32 {
                     if m == Method::RADAU && sign > 0.0 {
                         radau_stability(&mut rep, &ex);
                         radau_pade_every_step(&mut rep);
+                        radau_pade_general(&mut rep);
                     }
                     if sign > 0.0 {
                         estimator_on_trees(&mut rep, &forest, &ex);
@@ -568,7 +718,7 @@ pub fn run_check(replay: Option<Value>) -> i32 {
     rep.dims = json!({"methods": RK_METHODS.iter().map(|m| mname(*m)).collect::<Vec<_>>(), "h_signs": [1, -1], "rooted_trees_up_to_order": 9,
         "conditions": {"RK4": 8, "RK23": 4, "DOPRI5": 17, "DOP853": 200, "RADAU": 17}, "estimator_trees": "all trees of order <= q+1 at atol 1e-13 and 1e-8",
         "cross_validation": "6 nonlinear problems x 4 step sizes x both signs per explicit method", "local_order": "4 problems x both directions x h=2^-1..2^-8", "step_count": "2 problems x 9 tolerances"});
-    for t in ["second-step-tableau", "order-condition", "estimator-trees", "cross-validated", "local-order-ladder", "local-order-ladder-after-modification", "step-count-law", "radau-real-step-vs-pade", "radau-pade-every-step"] {
+    for t in ["second-step-tableau", "order-condition", "estimator-trees", "cross-validated", "local-order-ladder", "local-order-ladder-after-modification", "step-count-law", "radau-real-step-vs-pade", "radau-pade-every-step", "radau-pade-general"] {
         rep.require(t, 1);
     }
     rep.states_override = Some(forest.trees.len() as u64 * RK_METHODS.len() as u64);
